@@ -110,28 +110,33 @@ def hexEsc (h l : Char) : Option Char :=
   | some a, some b => if a < 8 then some (Char.ofNat (a * 16 + b)) else none
   | _, _ => none
 
-/-- `syn::LitStr::value` of `"text"`: the escapes of a Rust string literal. `none` = not a literal body the model
-    covers: a dangling or unknown escape (syn: error), `\u{…}` (cannot reach here: its braces make fv_template see a
-    hole) and the line continuation `\<newline>` (not modelled). -/
-def unescape : List Char → Option (List Char)
-  | [] => some []
-  | c :: rest =>
-    if c = '\\' then
-      match rest with
-      | [] => none
-      | e :: r =>
-        if e = 'x' then
-          match r with
-          | h :: l :: r' =>
-            match hexEsc h l with
-            | some ch => (ch :: ·) <$> unescape r'
-            | none => none
-          | _ => none
-        else
-          match escChar e with
-          | some ch => (ch :: ·) <$> unescape r
-          | none => none
-    else (c :: ·) <$> unescape rest
+/-- Where the reader of a string literal body is: between units, after `\\`, after `\\x`, after `\\xH`. -/
+inductive EscSt where
+  | normal
+  | bs
+  | x
+  | xh (h : Char)
+  deriving Repr, DecidableEq
+
+/-- `syn::LitStr::value` of `"text"`: the escapes of a Rust string literal, one character at a time.
+    `none` = not a literal body the model covers: a dangling or unknown escape (syn: error), `\\u{…}` (cannot reach here:
+    its braces make fv_template see a hole) and the line continuation `\\<newline>` (not modelled). -/
+def unescapeSt : EscSt → List Char → Option (List Char)
+  | .normal, [] => some []
+  | _, [] => none
+  | .normal, c :: r => if c = '\\' then unescapeSt .bs r else (c :: ·) <$> unescapeSt .normal r
+  | .bs, e :: r =>
+    if e = 'x' then unescapeSt .x r
+    else match escChar e with
+      | some ch => (ch :: ·) <$> unescapeSt .normal r
+      | none => none
+  | .x, h :: r => unescapeSt (.xh h) r
+  | .xh h, l :: r =>
+    match hexEsc h l with
+    | some ch => (ch :: ·) <$> unescapeSt .normal r
+    | none => none
+
+def unescape (text : List Char) : Option (List Char) := unescapeSt .normal text
 
 /-- `unescape_text` (macros/src/template.rs:189-199): untouched unless there is a backslash. -/
 def unescapeText (text : List Char) : Option (List Char) :=
@@ -227,10 +232,18 @@ def visitSeg (ext : List (List Char × List Char)) : RawSeg → Option MPart
         | none => ext.lookup label
       some (.hole label flags)                                               -- (:155-160)
 
+/-- `visit_literal` (lib.rs:219-226): every part in order; the first error wins (a compile error). -/
+def visitAll (ext : List (List Char × List Char)) : List RawSeg → Option (List MPart)
+  | [] => some []
+  | s :: r =>
+    match visitSeg ext s, visitAll ext r with
+    | some p, some ps => some (p :: ps)
+    | _, _ => none
+
 def macroParts (ext : List (List Char × List Char)) (src : List Char) : Option (List MPart) :=
   match segments src with
   | none => none
-  | some segs => segs.mapM (visitSeg ext)
+  | some segs => visitAll ext segs
 
 /-- The `literal` string the visitor also builds (:151-153, :173; the default span name). -/
 def macroLiteral : List MPart → List Char
